@@ -67,6 +67,7 @@ type Slot struct {
 	Retext []string `json:"retext,omitempty"` // per glyph: replacement text ("" = keep)
 	Fill   *Fill    `json:"fill,omitempty"`   // instead of Text
 	Dress  *Dress   `json:"dress,omitempty"`  // per-glyph rise and advance adjustments (dressed.go)
+	Untext []bool   `json:"untext,omitempty"` // per glyph: true = the glyph is shown without a text, Text "" (names.go)
 }
 
 // Step is one call: "L" = Layout of the slot, "E" = Encode and show.
@@ -82,6 +83,7 @@ type Case struct {
 	Fonts   []string `json:"fonts"`
 	Slots   []Slot   `json:"slots"`
 	Steps   []Step   `json:"steps"`
+	Namings []Naming `json:"namings,omitempty"` // caller-chosen resource names (names.go)
 }
 
 func (c *Case) size() int {
@@ -94,7 +96,13 @@ func (c *Case) size() int {
 	if c.Version != "1.7" {
 		n++
 	}
+	n += namingsSize(c.Namings)
 	for _, s := range c.Slots {
+		for _, u := range s.Untext {
+			if u {
+				n++
+			}
+		}
 		n += 3 * len([]rune(s.Text))
 		for _, t := range s.Retext {
 			if t != "" {
@@ -384,7 +392,12 @@ func execute(c *Case) (res result) {
 	resName := map[int]pdf.Name{} // font index -> resource name
 	perFont := map[int][]shown{}  // font index -> all glyphs shown with it
 	y := 400.0
-	for _, st := range c.Steps {
+	for k, st := range c.Steps {
+		if rj, bad := applyNamings(c, k, doc, fonts); bad != nil {
+			return result{outcome: "bad-case", fail: &failure{"bad-case", bad.Error()}}
+		} else if rj != "" {
+			return result{outcome: rj}
+		}
 		if st.Slot < 0 || st.Slot >= len(c.Slots) {
 			return result{outcome: "bad-case", fail: &failure{"bad-case", "slot out of range"}}
 		}
@@ -405,6 +418,7 @@ func execute(c *Case) (res result) {
 						seq.Seq[i].Text = t
 					}
 				}
+				applyUntext(seq, sl.Untext)
 			}
 			sl.Dress.apply(seq)
 			seqs[st.Slot] = seq
@@ -423,6 +437,10 @@ func execute(c *Case) (res result) {
 			doc.TextShowGlyphs(seq)
 			doc.TextEnd()
 			if doc.Err != nil {
+				if len(c.Namings) > 0 && strings.Contains(doc.Err.Error(), "already in use") {
+					// the font's own Name is bound to another font: the builder refuses
+					return result{outcome: "rejected:font-name:own"}
+				}
 				return result{outcome: "fail:builder", fail: &failure{"builder-error:" + fontClass(c.Fonts[sl.Font]), doc.Err.Error()}}
 			}
 			resName[sl.Font] = doc.FontName(F)
@@ -599,6 +617,11 @@ func execute(c *Case) (res result) {
 		gr := groups[k]
 		if f := judge(label, F, want, gr, resName[sl.Font], extracted, dicts); f != nil {
 			f.what = fmt.Sprintf("font %s, PDF %s, text object %d: %s", label, c.Version, k, f.what)
+			if cls := sharedNameClass(c, sl.Font, resName); cls != "" {
+				// the oracle is the same; the class of the defect is narrower
+				f.what = fmt.Sprintf("two fonts of the page are bound to the resource name %q (%s); %s", resName[sl.Font], cls, f.what)
+				f.fp = "font-resource-name-shared:" + cls
+			}
 			res.outcome, res.fail = "fail:"+strings.SplitN(f.fp, ":", 2)[0], f
 			return res
 		}
@@ -690,6 +713,14 @@ func encState(d dict.Dict, code []byte) string {
 	return s
 }
 
+// noText marks the fingerprint of a glyph that was shown without a text.
+func noText(text string) string {
+	if text == "" {
+		return ":glyph-without-text"
+	}
+	return ""
+}
+
 func textKind(got, want string) string {
 	switch {
 	case got == "":
@@ -759,7 +790,7 @@ func judge(label string, F font.Layouter, want []shown, gr *group, wantRes pdf.N
 		}
 		w := ww[s.gid]
 		if math.Abs(rc[i].Width-w) > widthTol {
-			return &failure{"width:" + cls, fmt.Sprintf("glyph %d (gid %d, %q, code <%x>): advance width %.5f in the font, %.5f read back", i, s.gid, s.text, pieces[i], w, rc[i].Width)}
+			return &failure{"width:" + cls + noText(s.text), fmt.Sprintf("glyph %d (gid %d, %q, code <%x>): advance width %.5f in the font, %.5f read back", i, s.gid, s.text, pieces[i], w, rc[i].Width)}
 		}
 		if math.Abs(wc[i].Width-w) > widthTol {
 			return &failure{"writer-width:" + cls, fmt.Sprintf("glyph %d (gid %d, %q, code <%x>): advance width %.5f in the font, writer-side Codes gives %.5f", i, s.gid, s.text, pieces[i], w, wc[i].Width)}
@@ -769,6 +800,11 @@ func judge(label string, F font.Layouter, want []shown, gr *group, wantRes pdf.N
 		}
 	}
 	for i, s := range want {
+		if s.text == "" {
+			// a glyph shown without a text: there is no text to read back,
+			// and the statement does not say what a reader makes of it
+			continue
+		}
 		if wc[i].Text != s.text {
 			return &failure{"writer-text:" + cls + ":" + textKind(wc[i].Text, s.text), fmt.Sprintf("glyph %d (gid %d, code <%x>): text %q shown, writer-side Codes gives %q", i, s.gid, pieces[i], s.text, wc[i].Text)}
 		}
@@ -935,11 +971,12 @@ func Run(tier string) int {
 	debug.SetGCPercent(400)
 	r := ev.New("C14", tier, "exploration", budget)
 	cl := &collector{r: r, v: map[string]*viol{}}
-	r.Rule("every case is one single-page document written with the library (fresh font instances, Layout, in the space dressed a per-glyph text rise and advance change and an initial skip put on the laid out sequence, builder.TextShowGlyphs -> Encode, ResourceManager, Close), reopened, and decoded with extract.Font and reader.Reader; distinct = distinct (space, version, fonts, slots, steps) tuples in which at least one glyph is shown")
+	r.Rule("every case is one single-page document written with the library (fresh font instances, Layout, in the space dressed a per-glyph text rise and advance change and an initial skip put on the laid out sequence, in the space untext Text \"\" put on some glyphs, in the space names resource names bound by the caller before the fonts are used, builder.TextShowGlyphs -> Encode, ResourceManager, Close), reopened, and decoded with extract.Font and reader.Reader; distinct = distinct (space, version, fonts, slots, steps, namings) tuples in which at least one glyph is shown")
 	r.Assume(
 		"reference = the (glyph id, text) pairs handed to the builder for which Encode succeeds; widths from GetGeometry().Widths",
 		"width tolerance 0.0005 em (width arrays store 1/1000 em)",
-		"texts are non-empty (an empty text hint is not a text); .notdef glyphs are shown like any other glyph",
+		"texts are non-empty except in the space untext: a glyph shown with Text \"\" has a code and a width like any other glyph and no text, so the text clauses (and the word-spacing agreement) are not applied to it; .notdef glyphs are shown like any other glyph",
+		"space names: a naming call (RegisterFont, SetFontNameInternal) that returns an error and a builder error 'font name already in use' for a font's own Name are rejections of the input, not failures",
 		"errors of Close that are version errors or the 256-code overflow are rejections of the input, not failures",
 		"dressed sequences: Glyph.Rise, Glyph.Advance and GlyphSeq.Skip decide where the glyphs go, not which codes are shown: the strings of all Tj/TJ operators of the text object, in order and through the TJ arrays, must be the codes of the glyphs in order; the numbers in the TJ arrays and the Ts operands are not judged (the statement is silent on positions)",
 	)
@@ -965,6 +1002,13 @@ func Run(tier string) int {
 	// so that a run cut short by the deadline on a loaded machine has still
 	// executed them.
 	r.Dim("space_dressed", dressedCases(r, kindsL, add))
+
+	// (f) glyphs without a text, (g) caller-chosen resource names (names.go)
+	{
+		_, goL, stdL, extraL := allFonts()
+		r.Dim("space_untext", untextCases(r, kindsL, append(append(append([]string{}, goL...), stdL...), extraL...), add))
+		r.Dim("space_names", namesCases(r, kindsL, add))
+	}
 
 	s1 := stringsUpTo(repertoire, 1)
 	s2 := stringsUpTo(repertoire, 2)
